@@ -141,7 +141,15 @@ class TabIntpCompuMethod(CompuMethod):
                 if x0 == x1:
                     # plateau: any sample of the interval is a preimage
                     return y0
-                return y0 + (x - x0) * (y1 - y0) / (x1 - x0)
+                result = y0 + (x - x0) * (y1 - y0) / (x1 - x0)
+
+                # rounding errors of the floating point arithmetic
+                # must not push the result beyond the two samples
+                # between which it is interpolated (e.g., the value
+                # for `x == x1` must be `y1`, not `y1` plus or minus
+                # 1e-15. Such a value would not be accepted by
+                # `is_valid_*_value()`.)
+                return min(max(result, min(y0, y1)), max(y0, y1))
 
         return None
 
